@@ -20,6 +20,8 @@ package deviceshare
 //  10 pod koordgpu core ratio shared nvidia rdma fpga n (victim pod){n}
 //                                                   preemption dry-run: PreFilter, RemovePod for every victim,
 //                                                   Filter; only the verdict is observed, nothing is committed
+//  11 kind                                          node labels: 0 none, 1 gpu-model H800 + gpu-partition-policy
+//                                                   Honor, 2 gpu-model H800 (built-in Hopper partition table)
 // types: 0 gpu (slots gpu-core, gpu-memory-ratio, gpu-memory), 1 rdma (slot rdma), 2 fpga (slot fpga);
 // a slot value -1 means "key absent".
 // observable = per op: code [allocations] summary   (see vtC07Summary)
@@ -222,7 +224,19 @@ type vtC07Rec struct {
 	pod       *corev1.Pod
 }
 
+func vtC07SetKind(kind int64) {
+	node := vtC07NodeInfo.Node()
+	node.Labels = map[string]string{}
+	if kind == 1 || kind == 2 {
+		node.Labels[apiext.LabelGPUModel] = "H800"
+	}
+	if kind == 1 {
+		node.Labels[apiext.LabelGPUPartitionPolicy] = string(apiext.GPUPartitionPolicyHonor)
+	}
+}
+
 func vtC07Exec(in []int64) []int64 {
+	vtC07SetKind(0)
 	pl := vtC07Plugin
 	pl.nodeDeviceCache = newNodeDeviceCache()
 	cache := pl.nodeDeviceCache
@@ -389,6 +403,10 @@ func vtC07Exec(in []int64) []int64 {
 				st = pl.Filter(ctx, cs, pod, vtC07NodeInfo)
 			}
 			obs = append(obs, vtC07StatusCode(st))
+		case 11:
+			vtC07SetKind(in[pos])
+			pos++
+			obs = append(obs, 0)
 		default:
 			panic("bad op")
 		}
@@ -792,13 +810,128 @@ func (g *vtC07G) sharingCase() (string, []int64) {
 	return label, in
 }
 
+// "partition" histories: a node labelled with a Hopper GPU model (partition table of 1/2/4/8 GPUs),
+// mostly with the Honor policy, up to eight GPUs some of which are unhealthy, whole-GPU requests
+// for 1, 2, 4 or 8 GPUs (rarely 3), a few fractional pods, releases and inventory flips.
+func (g *vtC07G) partitionCase() (string, []int64) {
+	r := g.r
+	kind := g.pick(1, 1, 1, 2)
+	ops := [][]int64{{11, kind}}
+	ng := int(g.pick(8, 8, 8, 4, 6))
+	mem := g.pick(16000, 81920)
+	mkInv := func() []int64 {
+		g.inv = nil
+		for m := 0; m < ng; m++ {
+			rec := []int64{0, int64(m), 1, 100, 100, mem, -1, 0}
+			if r.Intn(5) == 0 {
+				rec[2] = 0
+			}
+			if g.topo {
+				rec[6], rec[7] = int64(m/4), int64(m/2)
+			}
+			g.inv = append(g.inv, rec)
+		}
+		if r.Intn(3) == 0 {
+			g.inv = append(g.inv, []int64{1, 0, 1, 100, -1, -1, -1, 0})
+		}
+		o := []int64{1, int64(len(g.inv))}
+		for _, rec := range g.inv {
+			o = append(o, rec...)
+		}
+		return o
+	}
+	ops = append(ops, mkInv())
+	sched := func() []int64 {
+		p := g.next
+		g.next++
+		g.tried = append(g.tried, p)
+		req := make([]int64, 7)
+		switch r.Intn(10) {
+		case 0:
+			req[0] = g.pick(30, 50) // fractional: not partitioned
+		case 1:
+			req[0] = g.pick(100, 200, 400)
+		case 2:
+			req[1], req[2] = g.pick(50, 100, 200), g.pick(200, 400)
+		default:
+			req[4] = g.pick(1, 1, 2, 2, 2, 4, 4, 8, 3)
+		}
+		return append([]int64{2, p}, req...)
+	}
+	nops := 5 + r.Intn(12)
+	for len(ops) < nops {
+		k := r.Intn(100)
+		switch {
+		case k < 55:
+			ops = append(ops, sched())
+		case k < 75:
+			p := g.somePod()
+			g.drop(p)
+			ops = append(ops, []int64{g.pick(3, 5, 5, 9), p})
+		case k < 82:
+			ops = append(ops, mkInv())
+		case k < 88:
+			o := sched()
+			g.tried = g.tried[:len(g.tried)-1]
+			o[0] = 10
+			nv := r.Intn(3)
+			var vs []int64
+			seen := map[int64]bool{}
+			for j := 0; j < nv && len(g.tried) > 0; j++ {
+				v := g.tried[r.Intn(len(g.tried))]
+				if !seen[v] {
+					seen[v] = true
+					vs = append(vs, v)
+				}
+			}
+			o = append(o, int64(len(vs)))
+			ops = append(ops, append(o, vs...))
+		case k < 92:
+			p := g.next
+			g.next++
+			g.tried = append(g.tried, p)
+			m := int64(r.Intn(ng))
+			amt := g.pick(100, 100, 50, 0)
+			ops = append(ops, []int64{6, p, 1, 0, m, amt, amt, amt * mem / 100})
+		case k < 95:
+			ops = append(ops, []int64{11, g.pick(0, 1, 2)})
+		default:
+			ops = append(ops, []int64{4, g.somePod()})
+		}
+	}
+	in := []int64{int64(len(ops))}
+	for _, o := range ops {
+		in = append(in, o...)
+	}
+	label := fmt.Sprintf("partition%d", kind)
+	if g.topo {
+		label += "+topo"
+	}
+	return label, in
+}
+
 func vtC07Gen(r *rand.Rand, i int) (string, []int64) {
 	g := &vtC07G{r: r}
-	g.style = []string{"plain", "plain", "plain", "churn", "churn", "degenerate", "sharing"}[r.Intn(7)]
+	g.style = []string{"plain", "plain", "plain", "churn", "churn", "degenerate", "sharing", "partition"}[r.Intn(8)]
 	g.topo = r.Intn(5) < 2
 	if g.style == "sharing" {
 		return g.sharingCase()
 	}
+	if g.style == "partition" {
+		return g.partitionCase()
+	}
+	if r.Intn(12) == 0 {
+		// the ordinary styles occasionally run on a node that carries a partition table
+		label, in := g.ordinaryCase()
+		kind := int64(2) // without the Honor policy: no map-order dependent status when several types fail
+		in = append([]int64{in[0] + 1, 11, kind}, in[1:]...)
+		return fmt.Sprintf("%s+kind%d", label, kind), in
+	}
+	return g.ordinaryCase()
+}
+
+func (g *vtC07G) ordinaryCase() (string, []int64) {
+	r := g.r
 	nops := 3 + r.Intn(16)
 	var ops [][]int64
 	ops = append(ops, g.refreshOp())
